@@ -6,6 +6,10 @@ V = os.path.dirname(os.path.dirname(os.path.abspath(__file__)))
 EMIR = "symbolic execution of rustc MIR into z3 bit-vector formulas (mirsym), solver verdict over all inputs within the stated bound, cross-checked on z3 4.8.12 and cvc5, counterexamples replayed natively"
 
 checks = {
+ "C06": dict(cat="model_checking",
+   text="Placement rules of the syntax pass: src/alpha/analyzer/syntax.rs (Analyzable for FunctionBody, Block, Statement and their closures) is symbolically executed from MIR on a symbolic function body - statement trees of nesting depth <= 4 (thorough 5) with up to 2 (3) statements per body/block and symbolic lengths, all nine statement kinds, every if/else shape - and z3 decides that the output tree equals what the documented rules prescribe node by node: loop only as final statement of a braced block (E800 elsewhere in a block, E801 in a function body), if-branches goto or braced block, else also another if (E840), nothing else changes; the pass never panics.",
+   note="Bounded by nesting depth and block width. Outside: the L1800 lint and the generator's assumption. Trusted: MIR dump, mirsym + models for owned Vec iteration (into_iter/map/collect, pop, push), Box, Option::map; the encoding is validated natively (guarded hook) on random statement trees every run.",
+   ref="DESIGN.md section 3, C06"),
  "C07": dict(cat="model_checking",
    text="Relations-and-tables clause: the eight type relations of value_type.rs that decide which operand, argument and declaration types match (identity, implicit coercions, address coercions, autoderef, declaration matching, concretization) are symbolically executed from MIR and proved equal to a reference model for every pair of types of nesting depth <= 3 (quick) / 5 (thorough), plus algebraic consequences (no relation connects distinct primitives, coercions only have the documented shapes, identity is reflexive and symmetric).",
    note="Bounded by type nesting depth; lengths and names unconstrained. Trusted: MIR dump, mirsym + std models (validated natively on sampled pairs every run), the reference model vtref.py. Outside: the typer/resolver code that applies these relations to real expressions.",
@@ -45,7 +49,6 @@ na = {
  "C03":"the code under test is LLVM's own assembler/verifier/linker behind FFI",
  "C04":"label scoping walks a recursive heap AST through Vec/iterator/collect chains; out of reach for Kani (measured) and not yet modelled in the MIR executor",
  "C05":"as C04 plus HashMap/HashSet state and the full expression AST",
- "C06":"as C04",
  "C10":"both evaluators (constant folder and interpreter) are LLVM",
  "C16":"the recursive-descent parser explodes in CBMC as soon as one token is symbolic (measured); not yet attempted with the MIR executor",
  "C17":"as C16",
@@ -60,7 +63,7 @@ m = {
  "setup_cmd": "./setup.sh",
  "hooks": {"guard": "cargo features verif / verif_small_buffers",
            "enable": "--features verif_small_buffers (Kani harness crates); the MIR-based checks use the unhooked crate",
-           "baseline_off_cmd": "python3 /verif/lib/baseline.py", "source_commits": ["ecc0424", "2ff211b", "4dd7126", "cb3acb4"], "add_only": True},
+           "baseline_off_cmd": "python3 /verif/lib/baseline.py", "source_commits": ["ecc0424", "2ff211b", "4dd7126", "cb3acb4", "32a0e2f", "e7be6da"], "add_only": True},
  "engines": [
   {"name": "E-MIR", "path": "mir/", "serves_properties": sorted(checks),
    "kind_free_text": "bounded symbolic execution of rustc MIR (nightly -Zunpretty=mir of /repo's working tree) into z3 bit-vector terms; verdicts cross-checked on z3 4.8.12 and cvc5; translation validated natively through replay/"},
